@@ -178,7 +178,7 @@ struct Shared {
 }
 impl Shared {
     fn fail(&self, s: String) {
-        self.fails.lock().unwrap().push(s);
+        self.fails.lock().unwrap_or_else(|e| e.into_inner()).push(s);
     }
 }
 /// handles of the coroutines of the previous scenario: `Park::subscribe` still uses the coroutine's `Cancel` (it lives
@@ -186,7 +186,7 @@ impl Shared {
 /// the perturbation at the hooked `cancel.rs` operations widens that window of the runtime a lot
 static GRAVEYARD: StdMutex<Vec<coroutine::Coroutine>> = StdMutex::new(Vec::new());
 fn keep_handle() {
-    GRAVEYARD.lock().unwrap().push(coroutine::current());
+    GRAVEYARD.lock().unwrap_or_else(|e| e.into_inner()).push(coroutine::current());
 }
 fn tid() -> u64 {
     // ThreadId has no stable integer accessor: use the address of a thread local
@@ -230,7 +230,7 @@ impl ArmCtx {
         }
         if r as u32 >= self.spec.rounds {
             if self.spec.end == End::Block {
-                let rx = self.never.lock().unwrap().take();
+                let rx = self.never.lock().unwrap_or_else(|e| e.into_inner()).take();
                 if let Some(rx) = rx {
                     let _ = rx.recv(); // never fed: ends only by cancellation
                 }
@@ -253,13 +253,13 @@ impl ArmCtx {
             }
             Top::Sleep(us) => coroutine::sleep(Duration::from_micros(us)),
             Top::Recv => {
-                let g = self.rx.lock().unwrap().take();
+                let g = self.rx.lock().unwrap_or_else(|e| e.into_inner()).take();
                 if let Some(rx) = g {
                     let v = rx.recv();
                     if v.is_err() {
                         self.sh.fail(format!("arm {i}: feeder channel closed early"));
                     }
-                    *self.rx.lock().unwrap() = Some(rx);
+                    *self.rx.lock().unwrap_or_else(|e| e.into_inner()) = Some(rx);
                 }
             }
         }
@@ -497,7 +497,7 @@ fn poller(spec: &Spec, ctxs: &[Arc<ArmCtx>], sh: &Arc<Shared>, rm_tx: std::sync:
 }
 
 fn run_inproc(spec: Spec) -> Vec<String> {
-    GRAVEYARD.lock().unwrap().clear(); // the previous scenario ended at least 3 ms ago
+    GRAVEYARD.lock().unwrap_or_else(|e| e.into_inner()).clear(); // the previous scenario ended at least 3 ms ago
     if std::env::var("VH_CQ_DEBUG_PANICKING").is_ok() {
         for k in 0..4 {
             let h = unsafe { coroutine::Builder::new().name(format!("probe{k}")).spawn(move || std::thread::panicking()).unwrap() };
@@ -581,7 +581,7 @@ fn run_inproc(spec: Spec) -> Vec<String> {
     if spec.poller_co {
         let (spec2, ctxs2, sh2) = (spec.clone(), ctxs.clone(), sh.clone());
         let h = unsafe { coroutine::Builder::new().name("p".into()).stack_size(0x4000).spawn(move || poller(&spec2, &ctxs2, &sh2, rm_tx)).unwrap() };
-        GRAVEYARD.lock().unwrap().push(h.coroutine().clone());
+        GRAVEYARD.lock().unwrap_or_else(|e| e.into_inner()).push(h.coroutine().clone());
         if h.join().is_err() {
             sh.fail("poller coroutine panicked outside the scope".into());
         }
@@ -592,7 +592,7 @@ fn run_inproc(spec: Spec) -> Vec<String> {
     let _ = remover.join();
     over.store(true, SeqCst);
     drop(keep_alive);
-    let f = sh.fails.lock().unwrap().clone();
+    let f = sh.fails.lock().unwrap_or_else(|e| e.into_inner()).clone();
     f
 }
 
